@@ -8,6 +8,8 @@ From Coq Require Import List Arith Bool Lia.
 Import ListNotations.
 Require Import Base.C11_Unique Model.C11_Topo Proofs.C11_TopoProofs.
 Require Import Model.C04_Dofs Proofs.C04_DofsProofs Gen.C04Gen Dyn.C04Tie.
+From Coq Require Import Ring.
+Require Import Base.C01_Sums Model.C01_Assembly Proofs.C01_AssemblyProofs Proofs.C04_LocalityProofs.
 
 (* the code (kind, entity, k) <-> number is a bijection onto the contiguous range [off, off + N),
    N = nd*nv + ed*ne + fd*nf + id*nt, computed by div/mod *)
@@ -152,6 +154,40 @@ Proof.
   - apply (all_used_in dim nd ed fd id 0 nv ne nf nt t t2e t2f Hfd Ht Ht2e Ht2f O1 O2 O3). lia.
 Qed.
 Print Assumptions C04_doflocs_consistent.
+
+(* matrix locality, on group D's model of BilinearForm._assemble + COO->dense (Model.C01_Assembly): over any commutative ring, for any
+   bilinear kernel, trial basis ub and test basis vb on the same cells: the assembled matrix has shape (N_test, N_trial) and its entry
+   (r, c) is zero unless some integrated cell e has r among its test DOFs and c among its trial DOFs *)
+Theorem C04_matrix_locality :
+  forall (R : Type) (rO rI : R) (radd rmul rsub : R -> R -> R) (ropp : R -> R),
+    ring_theory rO rI radd rmul rsub ropp (@eq R) ->
+  forall (V W : Type) (form : V -> V -> W -> R) (w : nat -> nat -> W) (ub : basis R V) (vb0 : option (basis R V)),
+    let vb := match vb0 with None => ub | Some b => b end in
+    wf_basis ub -> wf_basis vb -> bnelems vb = bnelems ub -> bnq vb = bnq ub ->
+    exists c A,
+      bilinear_assemble R rO radd rmul V W form w ub vb0 = Some c /\
+      to_dense2 R rO radd c = Some A /\
+      c_shape c = [bN vb; bN ub] /\ length A = bN vb /\
+      (forall r, r < bN vb -> length (nth r A []) = bN ub) /\
+      forall r cc, r < bN vb -> cc < bN ub ->
+        (forall j i e, j < bNbfun ub -> i < bNbfun vb -> e < bnelems ub ->
+           nth e (element_dofs vb i) 0 = r -> nth e (element_dofs ub j) 0 = cc -> False) ->
+        nth cc (nth r A []) rO = rO.
+Proof. intros R rO rI radd rmul rsub ropp Rth V W. exact (matrix_locality R rO rI radd rmul rsub ropp Rth V W). Qed.
+Print Assumptions C04_matrix_locality.
+
+(* ... and the per-cell table regenerated from Dofs.__init__ IS such a basis table (Nbfun rows of nelems entries, all < N = total),
+   for every well-formed topology and count vector, so the theorem above applies to every Basis built on it *)
+Theorem C04_element_dofs_is_an_assembler_basis :
+  forall (R V : Type) dim nd ed fd id nv ne nf nt t t2e t2f nq (B : nat -> nat -> nat -> V) (dx : nat -> nat -> R),
+    wf dim fd nv ne nf nt t t2e t2f ->
+    let D := gen_dofs_init dim nd ed fd id 0 nv ne nf nt t t2e t2f in
+    wf_basis (mkBasis (total dim nd ed fd id nv ne nf nt) (length (D_element D)) nt nq (D_element D) B dx).
+Proof.
+  intros R V dim nd ed fd id nv ne nf nt t t2e t2f nq B dx H D. unfold D. rewrite gen_dofs_init_is_model.
+  now apply dofs_basis_wf.
+Qed.
+Print Assumptions C04_element_dofs_is_an_assembler_basis.
 
 (* C11 supplies the hypotheses for the tables the library derives: t2f / t2e of ANY cell list are in range and onto *)
 Theorem C04_hypotheses_hold_for_derived_tables :
